@@ -297,6 +297,26 @@ fn do_op(ctx: &mut Ctx, line: &str) -> String {
             v.sort();
             format!("{} {}", v.len(), v.join(";"))
         }
+        "dt" => {
+            // the DrawTable API on its own: a script of a<k> (add), r<k> (remove), q<k> (threefold?),
+            // c (clear) over small key numbers, starting from an empty table; the boards are clones of
+            // the current one with the key field set
+            let mut t = DrawTable::new();
+            let mut out = String::new();
+            for tok in rest.split(' ').filter(|x| !x.is_empty()) {
+                let (cmd, num) = tok.split_at(1);
+                let mut b = ctx.cur.clone();
+                b.zobrist_key = 0x9E37_79B9_7F4A_7C15u64.wrapping_mul(num.parse::<u64>().unwrap_or(0) + 1);
+                match cmd {
+                    "a" => t.add_board_to_draw_table(&b),
+                    "r" => t.remove_board_from_draw_table(&b),
+                    "q" => out.push(if t.is_threefold_repetition(&b) { '1' } else { '0' }),
+                    "c" => t.clear(),
+                    _ => {}
+                }
+            }
+            format!("{} tbl={}", if out.is_empty() { "-".to_string() } else { out }, table_str(&t))
+        }
         "gennull" => {
             // generation from the NULL-MOVE clone of the current board, built as engine.rs builds it:
             // side to move flipped in memory, everything else (en passant target, key) kept
